@@ -222,6 +222,7 @@ def main():
     if not ck.build():
         ck.finish()
     ck.check_props()
+    ck.check_translation()
     dist = {}
     check_star_tie(ck, dist)
     cases = G.exhaustive_small()
